@@ -120,6 +120,18 @@ def check_case(case):
                 labels.append("covalent-coupling-skip")
             if len(sa) != len(sb) or any(x[0] != y[0] or abs(x[1] - y[1]) > 1e-9 for x, y in zip(sa, sb)):
                 d.append("non-iterative side-chain determinants %r vs %r" % (sa, sb))
+            # an unlisted partner of an iterative like-charge pair (acid-acid, base-base) still acts as hydrogen-bond
+            # partner: such pairs always exchange side-chain determinants, whatever the iteration decides
+            if not (a["cov"] or b["cov"]):
+                for pk, lab, val in a["dets"]["sidechain"]:
+                    p_ = type_of.get(pk)
+                    if p_ is None or lab in penalised or gres(p_) in lset or p_["cov"]:
+                        continue
+                    if matrix.get_value(a["type"], p_["type"]) == "I" and p_["charge"] * a["charge"] > 0 \
+                            and abs(val) > 0.02:
+                        if not any(pk2 == pk for pk2, _l, _v in b["dets"]["sidechain"]):
+                            d.append("hydrogen bond with unlisted %s (iterative like-charge pair, %r without the "
+                                     "option) disappeared" % (lab, val))
             if d:
                 v.append({"clause": "environment-unchanged", "detail": "%s[%s]: %s" % (a["label"], c, "; ".join(d[:2])),
                           "sig": common.twin_sig(text, [a["key"]])})
@@ -206,6 +218,33 @@ def run_shard(ctx):
         ctx.account(case, v, info)
 
     ctx.hypothesis_stage("residue-lists", cases(), body, 2000 if quick else 30000)
+
+    # multi-conformation inputs (atoms copied between conformations must still match the list)
+    from vlib import genconf
+
+    @st.composite
+    def conf_cases(draw):
+        text, info = draw(genconf.multi_conformation(max_res=14, kinds=("models", "altloc")))
+        entries = pdbio.parse(text)
+        for a in pdbio.atoms_of(entries):
+            if a.chain == " ":
+                a.chain = "Q"
+        text = pdbio.write(entries)
+        ids = residue_ids(entries)
+        mode = draw(st.sampled_from(["all", "subset", "subset"]))
+        listed = list(ids) if mode == "all" else ([r for r in ids if draw(st.booleans())] or ids[:1])
+        return info, text, listed, mode == "all"
+
+    def conf_body(t):
+        info, text, listed, is_all = t
+        case = {"pdb": text, "listed": [list(x) for x in listed], "phantoms": [], "all": is_all}
+        v, ci = check_case(case)
+        ci["labels"] = ci.get("labels", []) + ["multi-conformation"]
+        ci["sample"] = {"structure": info["structure"].summary(), "conformations": info["labels"],
+                        "titrate_only": render(listed)[:200]}
+        ctx.account(case, v, ci)
+
+    ctx.hypothesis_stage("multi-conformation-lists", conf_cases(), conf_body, 500 if quick else 8000)
 
     # the repository's own bridged structure: listing everything / cysteines only
     if ctx.shard == 0:
